@@ -168,6 +168,11 @@ def build_inferred_module(rng, gated: set, idx: int, n: int):
         name = f"noinf{idx}_{k}"
         lines.append(f"def {name}(n: int = 0, obj=None):\n{body}\n\n")
         gt[name] = {"kind": "no-results", "src": body}
+    # an un-annotated function whose docstring NAMES its result without giving a type: the type is inferred, the name is the docstring's
+    for q, (ret, kinds) in enumerate([("0", {"Int"}), ("'a'", {"String"}), ("1.5 if n else 2.5", {"Float"})]):
+        nm_ = f"named_total_{idx}_{q}"
+        lines.append(f'def namedonly{idx}_{q}(n: int = 0):\n    """Doc.\n\n    Returns\n    -------\n    {nm_} :\n        Only a name and a text.\n    """\n    return {ret}\n\n\n')
+        gt[f"namedonly{idx}_{q}"] = {"kind": "inferred", "positions": {0: set(kinds)}, "features": ["docstring-name-without-type"], "src": f"return {ret}", "names": [nm_]}
     lines.append("def helper_call():\n    pass\n")
     return "".join(lines), gt
 
@@ -331,7 +336,7 @@ def make_judge(chk: Check):
                                 viols.append(Viol("inferred-result-does-not-cover", f"{where}:{k}", {"decl": d.path(), "position": p + 1, "literal_kind": k, "stub_type": d.results[p].type.render() if d.results[p].type else None, "features": g["features"], "source": g["src"][:600]}))
                     if not pos and d.results:
                         viols.append(Viol("results-without-inferable-return", "inferred:0", {"decl": d.path()}))
-                    want_names = [f"result_{q + 1}" for q in range(len(d.results))]
+                    want_names = g.get("names") or [f"result_{q + 1}" for q in range(len(d.results))]
                     if nc:
                         want_names = [nm.names_ref(x) for x in want_names]
                     if [r.name for r in d.results] != want_names:
